@@ -218,7 +218,11 @@ func projectColumns(selectList sql.SelectList, qfields storage.Fields, rows []*s
 			case sql.Average:
 				// set initial value used for subsequent aggregation step
 				idx := lookup[elem.ValueExpression.(sql.ColumnReference)]
-				newVals = append(newVals, row.Vals[idx].(int64))
+				val, isInt := row.Vals[idx].(int64)
+				if !isInt {
+					return nil, fmt.Errorf("%w: avg() requires integer values, got %v", ErrIncompatTypeCompare, row.Vals[idx])
+				}
+				newVals = append(newVals, val)
 			case sql.Count:
 				// set initial value used for subsequent aggregation step
 				count := int64(0)
